@@ -91,6 +91,35 @@ POOLS = {
 }
 
 
+_LAST_HANG = {}
+
+
+def promote_to_file(repo, fname, found):
+    """a hang reproduced by calling the helper directly on a byte string -> the same bytes carried by a structurally valid file through
+    the registered extractors that reach the helper's module (the input a caller of read_file can actually supply).  -> finding | None"""
+    labels = {pl: l for (l, pl) in record_payloads()}
+    payloads = [("direct-call-witness:" + labels.get(bytes(a).lstrip(b"\x00"), labels.get(bytes(a), "bytes")), a)
+                for a in _LAST_HANG.get("args", []) if isinstance(a, (bytes, bytearray)) and len(a) >= 8]
+    if not payloads:
+        return None
+    done = set()
+    for k, modpath, fn in reaching_extractors(repo, fname):
+        if (modpath, fn) in done:
+            continue
+        try:
+            rec = list(ole_record_cases(repo, k, payloads))
+        except Exception:  # noqa
+            rec = []
+        if not rec:
+            continue
+        done.add((modpath, fn))
+        r = batch_probe(repo, modpath, fn, f"x.{k}", rec, single_timeout=15, per_case=0.5)
+        if r is not None:
+            r["inputs"]["helper_witness"] = found.get("target")
+            return r
+    return None
+
+
 def hang_search(obligation, repo):
     """Small-scope native calls of the function a `decreases#` obligation belongs to, built from its annotations, each under a 3 s alarm."""
     import importlib
@@ -121,10 +150,14 @@ def hang_search(obligation, repo):
         ann = str(ann).replace("typing.", "").replace("List", "list")
         if ann not in POOLS:
             return None
-        pools.append(POOLS[ann])
+        pool = POOLS[ann]
+        if ann == "bytes":
+            # byte-string parameters of carving / record-walking helpers: record streams with boundary values in the length fields
+            pool = pool + [pl for (_l, pl) in record_payloads()] + [b"\x00" * 7 + pl for (_l, pl) in record_payloads() if _l.startswith("png:")][:40]
+        pools.append(pool)
     signal.signal(signal.SIGALRM, _alarm)
     tried = 0
-    for args in itertools.islice(itertools.product(*pools), 400):
+    for args in itertools.islice(itertools.product(*pools), 600):
         tried += 1
         signal.alarm(3)
         try:
@@ -133,6 +166,7 @@ def hang_search(obligation, repo):
                 for _ in r:
                     pass
         except _Timeout:
+            _LAST_HANG["args"] = list(args)
             return {"reproduced": True, "target": f"{modname}.{q}", "inputs": {"args": [repr(a)[:80] for a in args]}, "expected": "terminates",
                     "observed": "no return within 3 s"}
         except Exception:  # noqa
@@ -378,6 +412,94 @@ def fixture_mutants(repo, key, seed=0, per_fixture=70):
             yield f"mutant-{n}:{name}", bytes(b)
 
 
+# ------------------- length-prefixed records: boundary values in every length field (embedded image carving) --
+BOUNDARY32 = (0, 1, 4, 8, 12, 13, 0x7FFFFFFF, 0x80000000, 0x80000001, 0xFFFFFFFF, 0xFFFFFFF0, 0xFFFFFFF4, 0xFFFFFFF8, 0xFFFFFFFC, 0xFFFFFF00, 0xFFFF0000)
+PNG_SIG = b"\x89PNG\r\n\x1a\n"
+
+
+def record_payloads():
+    """(label, bytes): record streams whose length fields take boundary values -- zero, one, header size, sign bit set, minus the
+    header size (the cursor stands still), minus k records (the cursor cycles), huge.  PNG chunks (4-byte big-endian length, type,
+    data, crc), JPEG segments (2-byte big-endian length including itself), DIB headers (little-endian sizes)."""
+    import struct
+    import zlib
+
+    def chunk(typ, data):
+        return struct.pack(">I", len(data)) + typ + data + struct.pack(">I", zlib.crc32(typ + data) & 0xFFFFFFFF)
+    ihdr = chunk(b"IHDR", struct.pack(">IIBBBBB", 1, 1, 8, 0, 0, 0, 0))
+    idat = chunk(b"IDAT", zlib.compress(b"\x00\x00"))
+    iend = chunk(b"IEND", b"")
+    tail = b"\x00" * 16
+    for v in BOUNDARY32:
+        for typ in (b"IHDR", b"IDAT", b"tEXt"):
+            yield f"png:first-chunk-{typ.decode()}-length-{v:08x}", PNG_SIG + struct.pack(">I", v) + typ + b"\x00" * 13 + b"\x00\x00\x00\x00" + iend + tail
+        yield f"png:second-chunk-length-{v:08x}", PNG_SIG + ihdr + struct.pack(">I", v) + b"IDAT" + b"\x00" * 8 + iend + tail
+        yield f"png:iend-length-{v:08x}", PNG_SIG + ihdr + idat + struct.pack(">I", v) + b"IEND" + b"\x00" * 8 + tail
+    for back in (12, 24, 12 + len(ihdr), 12 + len(ihdr) + len(idat)):          # jump back over k earlier chunks: a cycle
+        v = (-back) & 0xFFFFFFFF
+        yield f"png:chunk-length-minus-{back}", PNG_SIG + ihdr + idat + struct.pack(">I", v) + b"tEXt" + b"\x00" * 8 + iend + tail
+    for v in (0, 1, 2, 3, 0x7FFF, 0x8000, 0xFFFE, 0xFFFF):
+        for marker in (0xE0, 0xC0, 0xDB, 0xDA, 0xFE):
+            yield f"jpeg:segment-{marker:02x}-length-{v:04x}", b"\xff\xd8\xff" + bytes([marker]) + struct.pack(">H", v) + b"JFIF\x00" + b"\x00" * 12 + b"\xff\xd9" + tail
+    for v in BOUNDARY32:
+        yield f"dib:header-size-{v:08x}", struct.pack("<IiiHHII", v, 1, 1, 1, 24, 0, 4) + b"\x00" * 24
+        yield f"dib:image-size-{v:08x}", struct.pack("<IiiHHII", 40, 1, 1, 1, 24, 0, v) + b"\x00" * 24
+        yield f"bmp:file-size-{v:08x}", b"BM" + struct.pack("<IHHI", v, 0, 0, 54) + struct.pack("<IiiHHII", 40, 1, 1, 1, 24, 0, 4) + b"\x00" * 24
+
+
+def ole_hosts(repo, key):
+    """(fixture name, bytes, [(stream name, size)]) -- the smallest OLE fixtures of an extension and their regular (non-mini) streams"""
+    try:
+        import olefile
+    except Exception:  # noqa
+        return
+    files = [f for f in glob.glob(os.path.join(repo, "sharepoint2text/tests/resources/**/*." + key), recursive=True)
+             if os.path.isfile(f) and 512 <= os.path.getsize(f) < 200_000 and "password" not in f]
+    for f in sorted(files, key=os.path.getsize)[:2]:
+        data = open(f, "rb").read()
+        try:
+            if not olefile.isOleFile(io.BytesIO(data)):
+                continue
+            ole = olefile.OleFileIO(io.BytesIO(data))
+            streams = [("/".join(e), ole.get_size("/".join(e))) for e in ole.listdir(streams=True, storages=False)]
+            cutoff = getattr(ole, "minisectorcutoff", 4096)
+            ole.close()
+        except Exception:  # noqa
+            continue
+        streams = sorted([x for x in streams if x[1] >= cutoff], key=lambda x: -x[1])[:4]
+        if streams:
+            yield os.path.basename(f), data, streams
+
+
+def ole_record_cases(repo, key, payloads=None):
+    """a structurally valid OLE file (header, FAT, directory untouched; streams keep their size) whose stream CONTENT carries the
+    hostile records: spliced in near the end and in the middle of each regular stream"""
+    import olefile
+    payloads = list(record_payloads()) if payloads is None else list(payloads)
+    for name, data, streams in ole_hosts(repo, key):
+        for sname, size in streams:
+            try:
+                ole = olefile.OleFileIO(io.BytesIO(data))
+                content = ole.openstream(sname).read()
+                ole.close()
+            except Exception:  # noqa
+                continue
+            for where in ("end", "middle"):
+                for label, pl in payloads:
+                    if len(pl) + 64 > len(content) // 2:
+                        continue
+                    at = len(content) - len(pl) if where == "end" else (len(content) // 2) & ~3
+                    new = content[:at] + pl + content[at + len(pl):]
+                    buf = io.BytesIO(data)
+                    try:
+                        ole = olefile.OleFileIO(buf, write_mode=True)
+                        ole.write_stream(sname, new)
+                        ole.close()
+                    except Exception:  # noqa
+                        break
+                    yield f"ole:{name}:{sname}@{where}:{label}", buf.getvalue()
+
+
 def directed_probe(repo, fname, seed, budget=240.0):
     """hang search for a `decreases#` obligation of file `fname`: fixture mutants through every extractor that reaches the file"""
     import time
@@ -393,6 +515,14 @@ def directed_probe(repo, fname, seed, budget=240.0):
         r = batch_probe(repo, modpath, fn, f"x.{k}", cases, per_case=2.0)
         if r is not None:
             return r
+        try:
+            rec = list(ole_record_cases(repo, k))
+        except Exception:  # noqa
+            rec = []
+        if rec:
+            r = batch_probe(repo, modpath, fn, f"x.{k}", rec, per_case=0.5)
+            if r is not None:
+                return r
     return None
 
 
@@ -622,9 +752,14 @@ def find(req):
     if "/decreases#regex-" in (req.get("obligation") or ""):
         return {"reproduced": False, "note": "no pumping text (pattern not read by the static analysis)"}
     if "/decreases#" in (req.get("obligation") or ""):
+        _LAST_HANG.clear()
         r = hang_search(req["obligation"], repo)
         if r is not None and r.get("reproduced"):
-            return r
+            try:
+                r2 = promote_to_file(repo, req["obligation"].split("/", 1)[1].split("::")[0], r)
+            except Exception:  # noqa
+                r2 = None
+            return r2 or r
         ob = req["obligation"]
         archive_first = any(w in ob for w in ("sevenzip", "archive", "7z"))
         if archive_first:
@@ -764,4 +899,4 @@ def find(req):
 
 
 def rerun(stored):
-    return find({"function": stored.get("target", "")})
+    return find({"function": stored.get("target", ""), "obligation": stored.get("obligation") or ""})
